@@ -208,6 +208,7 @@ func Harness_C20_entities() {
 	w := &fedWorld{fault: map[string]int{}, budget: zzsym.Param("budget", 1), gated: zzsym.Param("gated", 0) == 1}
 	reps := make([]any, n)
 	shapes := make([]int, n)
+	ix := make([]int, n) // the entity representation i names: its own, or (duplicates) the one the first representation names
 	nshape := zzsym.Param("shapes", len(fedShapes))
 	for i := 0; i < n; i++ {
 		shapes[i] = zzsym.Choice("shape", nshape)
@@ -219,7 +220,16 @@ func Harness_C20_entities() {
 				shapes[i] = []int{0, len(fedShapes) - 3, len(fedShapes) - 2, 6}[shapes[i]%4]
 			}
 		}
-		reps[i] = fedShapes[shapes[i]].rep(i)
+		if zzsym.Param("failing", 0) == 1 {
+			// shapes that fail without any fault: several failing representations of one type in one request
+			shapes[i] = []int{8, 0, 6}[shapes[i]%3]
+		}
+		ix[i] = i
+		if i == n-1 && i > 0 && zzsym.Choice("dup", 2) == 1 {
+			// the list names one entity twice
+			shapes[i], ix[i] = shapes[0], 0
+		}
+		reps[i] = fedShapes[shapes[i]].rep(ix[i])
 	}
 	got := fedRun(w, reps)
 	zzsym.Assert(!got.isNull && len(got.list) == n, "_entities answers with one element per representation")
@@ -232,16 +242,16 @@ func Harness_C20_entities() {
 			if batch[s.multi] != "" {
 				batch[s.multi] += ","
 			}
-			batch[s.multi] += s.batchID(i)
+			batch[s.multi] += s.batchID(ix[i])
 		}
 	}
 	failures := 0
 	for i := 0; i < n; i++ {
 		s := fedShapes[shapes[i]]
-		want := s.want(i)
+		want := s.want(ix[i])
 		key := ""
 		if s.lookups != nil {
-			key = s.lookups(i)
+			key = s.lookups(ix[i])
 		} else if s.multi != "" {
 			key = s.multi + ":" + batch[s.multi]
 		}
@@ -262,6 +272,9 @@ func Harness_C20_entities() {
 		zzsym.Assert(got.nerr == 0, "no error without a failing representation")
 	} else {
 		zzsym.Assert(got.nerr >= 1, "a failed representation is reported")
+	}
+	if zzsym.Param("failing", 0) == 1 {
+		zzsym.Assert(got.nerr == failures, "one error per failed representation")
 	}
 	zzsym.Reach("c20.compared")
 }
